@@ -7,6 +7,9 @@ AS_H = 'src/tbb/arena_slot.h'
 TD_CPP = 'src/tbb/task_dispatcher.cpp'
 PF_H = 'include/oneapi/tbb/parallel_for.h'
 MB_H = 'src/tbb/mailbox.h'
+FG_H = 'include/oneapi/tbb/flow_graph.h'
+FGN_H = 'include/oneapi/tbb/detail/_flow_graph_node_impl.h'
+FGC_H = 'include/oneapi/tbb/detail/_flow_graph_cache_impl.h'
 CPQ_H = 'include/oneapi/tbb/concurrent_priority_queue.h'
 AGG_H = 'include/oneapi/tbb/detail/_aggregator.h'
 CUB_H = 'include/oneapi/tbb/detail/_concurrent_unordered_base.h'
@@ -500,6 +503,40 @@ MUTANTS = [
          "        op->next.store(res, std::memory_order_relaxed);\n        pending_operations.store(op);")]),
     dict(name='c13-handler-busy-relaxed', prop='C13', clause='D1', edits=[
         (AGG_H, "        handler_busy.store(0, std::memory_order_release);", "        handler_busy.store(0, std::memory_order_relaxed);")]),
+    # ---------------------------------------------------------------- C14
+    dict(name='c14-occupy-without-limit', prop='C14', clause='D3', edits=[
+        (FGN_H, "            case occupy_concurrency:\n                if (my_concurrency < my_max_concurrency) {\n                    ++my_concurrency;\n                    tmp->status.store(SUCCEEDED, std::memory_order_release);\n                } else {\n                    tmp->status.store(FAILED, std::memory_order_release);\n                }\n                break;",
+         "            case occupy_concurrency:\n                ++my_concurrency;\n                tmp->status.store(SUCCEEDED, std::memory_order_release);\n                break;")]),
+    dict(name='c14-handler-missing-status', prop='C14', clause='D1', edits=[
+        (FGN_H, "            case rem_pred:\n                my_predecessors.remove(*(tmp->r));\n                tmp->status.store(SUCCEEDED, std::memory_order_release);\n                break;",
+         "            case rem_pred:\n                my_predecessors.remove(*(tmp->r));\n                break;")]),
+    dict(name='c14-handler-missing-case', prop='C14', clause='D1', edits=[
+        (FG_H, "            case rel_res:  internal_release(tmp); try_forwarding = true; break;\n", "")]),
+    dict(name='c14-forward-fail-no-status', prop='C14', clause='D1', edits=[
+        (FG_H, "        if (this->my_reserved || !derived->is_item_valid()) {\n            op->status.store(FAILED, std::memory_order_release);\n            this->forwarder_busy = false;\n            return;\n        }",
+         "        if (this->my_reserved || !derived->is_item_valid()) {\n            this->forwarder_busy = false;\n            return;\n        }")]),
+    dict(name='c14-finalize-release-first', prop='C14', clause='D5', edits=[
+        ('include/oneapi/tbb/detail/_flow_graph_impl.h', "    destruct_and_deallocate<DerivedType>(ed);\n    reference_vertex->release();", "    reference_vertex->release();\n    destruct_and_deallocate<DerivedType>(ed);")]),
+    dict(name='c14-queue-destroy-unconditional', prop='C14', clause='D4', edits=[
+        (FG_H, "        if (new_task) {\n            // workaround for icc bug\n            graph& graph_ref = this->graph_reference();\n            last_task = combine_tasks(graph_ref, last_task, new_task);\n            this->destroy_front();\n        }",
+         "        if (new_task) {\n            // workaround for icc bug\n            graph& graph_ref = this->graph_reference();\n            last_task = combine_tasks(graph_ref, last_task, new_task);\n        }\n        this->destroy_front();")]),
+    dict(name='c14-round-robin-no-register', prop='C14', clause='D4', edits=[
+        (FGC_H, "            if ( new_task ) {\n                return new_task;\n            } else {\n               if ( (*i)->register_predecessor(*this->my_owner) ) {\n                   i = this->my_successors.erase(i);\n               }\n               else {\n                   ++i;\n               }\n            }",
+         "            if ( new_task ) {\n                return new_task;\n            } else {\n                   ++i;\n            }")]),
+    dict(name='c14-broadcast-erase-always', prop='C14', clause='D4', edits=[
+        (FGC_H, "            else {  // failed\n                if ( (*i)->register_predecessor(*this->my_owner) ) {\n                    i = this->my_successors.erase(i);\n                } else {\n                    ++i;\n                }\n            }\n        }\n        return last_task;",
+         "            else {  // failed\n                (*i)->register_predecessor(*this->my_owner);\n                i = this->my_successors.erase(i);\n            }\n        }\n        return last_task;")]),
+    dict(name='c14-pred-cache-drops-edge', prop='C14', clause='D4', edits=[
+        (FGC_H, "            if (successful_get == false) {\n                // Relinquish ownership of the edge\n                register_successor(*src, *my_owner);\n            } else {",
+         "            if (successful_get == false) {\n            } else {")]),
+    dict(name='c14-concurrency-written-outside', prop='C14', clause='D2', edits=[
+        (FGN_H, "        operation_type op_data(t, tryput_bypass __TBB_FLOW_GRAPH_METAINFO_ARG(metainfo));\n        my_aggregator.execute(&op_data);",
+         "        if (my_concurrency > my_max_concurrency) my_concurrency = my_max_concurrency;\n        operation_type op_data(t, tryput_bypass __TBB_FLOW_GRAPH_METAINFO_ARG(metainfo));\n        my_aggregator.execute(&op_data);")]),
+    dict(name='c14-apply-body-task-cancel-leak', prop='C14', clause='D5', edits=[
+        ('include/oneapi/tbb/detail/_flow_graph_body_impl.h', "    d1::task* cancel(d1::execution_data& ed) override {\n        BaseTaskType::template finalize<apply_body_task_bypass>(ed);",
+         "    d1::task* cancel(d1::execution_data& ed) override {\n        BaseTaskType::template destruct_and_deallocate<apply_body_task_bypass>(ed);")]),
+    dict(name='c14-task-for-inactive-graph', prop='C14', clause='D5', edits=[
+        (FGN_H, "    inline graph_task* create_forward_task() {\n        if (!is_graph_active(my_graph_ref)) {\n            return nullptr;\n        }", "    inline graph_task* create_forward_task() {")]),
 ]
 
 BENIGN = [
@@ -542,4 +579,7 @@ BENIGN = [
         (CUB_H, "        my_next.store(next_node, std::memory_order_release);", "        my_next.store(next_node);")]),
     dict(name='c13-b-status-seqcst', prop='C13', edits=[
         (CPQ_H, "                tmp->status.store(uintptr_t(FAILED), std::memory_order_release);\n            } else {", "                tmp->status.store(uintptr_t(FAILED));\n            } else {")]),
+    dict(name='c14-b-status-helper', prop='C14', edits=[
+        (FGN_H, "            case rem_pred:\n                my_predecessors.remove(*(tmp->r));\n                tmp->status.store(SUCCEEDED, std::memory_order_release);\n                break;",
+         "            case rem_pred:\n                my_predecessors.remove(*(tmp->r));\n                tmp->status.store(SUCCEEDED);\n                break;")]),
 ]
